@@ -634,6 +634,7 @@ def run(tier, only=None):
     rep.assumptions.append("scope: files read as libraries/archives (lib.c, archive.c, file.c helpers); message catalogues, "
                            "terminal descriptions and the C++ type list are not library inputs")
     r9(rep)
+    r10(rep)
     from . import nullsearch
     nullsearch.report(rep, "R8", ("lib.c", "archive.c", "foam.c", "buffer.c", "sexpr.c", "file.c", "emit.c", "fint.c"), floor=3)
     return rep
